@@ -114,7 +114,7 @@ pub fn replay(r: &Value) -> Result<String, (String, String)> {
             let w = witnesses(&case, case.tol(f32_run));
             match prop {
                 "C01" => c01_check(&case, op.unwrap(), f32_run, pairing, &w).map(|n| format!("{} witnesses agree", n)),
-                "C02" => c02_check(&case, op.unwrap(), f32_run, &w, &mut StructStats::default()).map(|_| "structure valid".to_string()),
+                "C02" => c02_check_through(&case, op.unwrap(), f32_run, &w, &mut StructStats::default(), pairing).map(|_| "structure valid".to_string()),
                 "C04" => c04_check(&case, op.unwrap(), f32_run, &mut ProvStats::default()).map(|_| "provenance valid".to_string()),
                 "C05" => c05_check_through(&case, f32_run, &w, pairing).map(|n| format!("{} witnesses consistent", n)),
                 "C03" => c03_check(&case, op.unwrap(), f32_run).map(|_| "returns normally".to_string()),
